@@ -261,6 +261,10 @@ class Conn:
         return [Action(f"{self.name}:rx{len(head)}", [lambda: self._deliver_data(head)], pre=pop)]
 
 
+_REAL_OPEN_CONNECTION = asyncio.open_connection
+_REAL_OPEN_UNIX_CONNECTION = asyncio.open_unix_connection
+
+
 class Net:
     """Fake listener + patch of asyncio.open_connection."""
 
@@ -294,13 +298,33 @@ class Net:
         return conn.reader, conn.writer
 
     def install(self) -> None:
+        """Replace asyncio.open_connection / open_unix_connection - on the asyncio module and wherever a loaded gallia module
+        has bound the function under a name of its own (``from asyncio import open_connection``): the import style of the
+        code under test must not decide whether the fake network is used."""
+        import sys
+
         self._orig = {
             "open_connection": asyncio.open_connection,
             "open_unix_connection": asyncio.open_unix_connection,
         }
+        originals = (_REAL_OPEN_CONNECTION, _REAL_OPEN_UNIX_CONNECTION)
+        self._rebound: list[tuple[Any, str, Any]] = []
+        for name, mod in list(sys.modules.items()):
+            if mod is None or not (name == "gallia" or name.startswith("gallia.")):
+                continue
+            d = getattr(mod, "__dict__", None)
+            if d is None:
+                continue
+            for attr, val in list(d.items()):
+                if any(val is o for o in originals):
+                    self._rebound.append((d, attr, val))
+                    d[attr] = self._open
         asyncio.open_connection = self._open  # type: ignore[assignment]
         asyncio.open_unix_connection = self._open  # type: ignore[assignment]
 
     def uninstall(self) -> None:
         for k, v in self._orig.items():
             setattr(asyncio, k, v)
+        for d, attr, val in getattr(self, "_rebound", []):
+            d[attr] = val
+        self._rebound = []
